@@ -30,7 +30,8 @@ Good(ep) == {l \in Leaves(ep) : Accepted(ep, l)}
 
 Exprs(ep) ==
     LET g == Good(ep)
-        d1 == g \cup {NotE(l) : l \in g} \cup {SetE(o, <<a, b>>) : o \in {"and", "or"}, a \in g, b \in g} \cup {SetE("and", <<>>)}
+        d1 == g \cup {NotE(l) : l \in g} \cup {SetE(o, <<a, b>>) : o \in {"and", "or"}, a \in g, b \in g} \cup {SetE("and", <<>>), SetE("or", <<>>), NotE(SetE("or", <<>>))}
+                \cup {SetE("and", <<a, SetE("or", <<>>)>>) : a \in {l \in g : l.op = "$match"}}
     IN IF Depth <= 1 THEN d1
        ELSE d1 \cup {SetE(o, <<a, NotE(b)>>) : o \in {"and", "or"}, a \in g, b \in g}
                \cup {SetE("and", <<a, SetE("or", <<b, c>>)>>) : a \in g, b \in g, c \in {l \in g : l.op = "$match"}}
